@@ -630,7 +630,10 @@ def _difference_shrinks(d, fn, call, diff, linit):
             return any(all(capped(x) for x in side) for side in (arm[1], arm[2]))
         if isinstance(arm, tuple) and arm and arm[0] == "either":
             return all(capped(x) for side in (arm[1], arm[2]) for x in side)
-        return is_end(norm.uncast(ir.sx(arm)))
+        t_ = norm.uncast(ir.sx(arm))
+        if t_[0] == "ref" and t_[1] == "last" and "first" in pnames and "last" in pnames and ptypes.get("first") == ptypes.get("last"):
+            return True        # [first, last) is a range of this string by the member's contract: last <= end()
+        return is_end(t_)
 
     def behind(arm):
         if isinstance(arm, tuple) and arm and arm[0] in ("min", "either"):
